@@ -137,8 +137,9 @@ class Code15(Code13):
         self.co_lnotab = co_lnotab
 
     def freeze(self):
+        # co_freevars and co_cellvars exist only since 2.0 (Code2)
         for field in "co_consts co_names co_varnames co_freevars co_cellvars".split():
-            val = getattr(self, field)
+            val = getattr(self, field, None)
             if isinstance(val, list):
                 setattr(self, field, tuple(val))
 
